@@ -236,13 +236,24 @@ Definition cons_body_eq (v : variant) (o : opts) (x y : cons) : result bool :=
 
 Definition bounded (c : cls) : bool := match c with CDim | CAux | CDomAnc => true | _ => false end.
 
-(* _equals_preprocess: None = `type(self)(source=other)` between classes whose
-   conversion is not modelled *)
+(* _equals_preprocess with ignore_type=True: `type(self)(source=other, copy=False)` keeps the
+   properties, the data and those components that the class of self has (geometry, bounds and
+   interior ring for the coordinate-like classes, the measure for a cell measure) and drops the
+   others.  (Components a class lacks are None in this representation.) *)
+Definition convert (cx : cls) (y : cons) : cons :=
+  mkC cx (c_pd y)
+      (if bounded cx then c_geom y else None)
+      (if bounded cx then c_bounds y else None)
+      (if bounded cx then c_iring y else None)
+      (match cx with CMeas => c_meas y | _ => None end).
+
+(* None = a conversion that is not modelled (external variables across classes) *)
 Definition cons_eq (v : variant) (o : opts) (x y : cons) : option (result bool) :=
   if cls_eqb (c_cls x) (c_cls y) then Some (cons_body_eq v o x y)
   else if negb (o_itype o) then Some (Ok false)
   else if bounded (c_cls x) && bounded (c_cls y) then Some (cons_body_eq v o x y)
-  else None.
+  else if p_ext (c_pd x) || p_ext (c_pd y) then None
+  else Some (cons_body_eq v o x (convert (c_cls x) y)).
 
 (* ---- DomainAxis.equals ----------------------------------------------------- *)
 Definition axis_eq (x y : option Z) : bool := option_eqb Z.eqb x y.
